@@ -60,8 +60,8 @@ CHECKS["C09"] = dict(category=MC, design_ref="5/C09",
     text="Same inductive cache step as C03 with the accounting claims: hit verdict = residency in the pre-state, accesses/hits/last-hit flag/miss penalty (symbolic) for counted accesses, all four unchanged for uncounted reads and direct writes, and the post-state (which way holds the block, other ways/sets untouched, victim by the configured policy, LRU/PLRU update, no allocation on write-through write misses) equals a reference set-associative cache; plus 3-operation histories from reset and the program-level clause.",
     note="Trusted: reference cache formulas in checks/cachestep.py. Rejected accesses outside the claim. Program clause: bounded symbolic programs (all 8 load/store classes alone, L<=2 skeletons with memory instructions) run uncached, cached single-cycle and cached five-stage: one access per executed load/store, identical counters in both modes, cycles advance by 1 + penalty x misses per step; every cache gets exactly its configured geometry/policy/penalty (config harness).")
 CHECKS["C10"] = dict(category=MC, design_ref="5/C10",
-    text="One inductive step of the real LRU / PLRU objects from an arbitrary policy state: LRU order list = any permutation sorted by ghost last-access timestamps (uninterpreted), access() keeps it sorted with the accessed block newest, victim has the minimal timestamp, get_repr() is the age rank; PLRU with arbitrary bits: victim follows the tree, access points every bit on the path away, off-path bits unchanged; access is idempotent. CrossHair 0.0.110 re-checks 12 PEP316 postconditions on the real classes (associativity <= 4) as an independent engine.",
-    note="Bounds: LRU n<=6 (access) / <=4 (repr) quick, 8/6 thorough; PLRU n in {1,2,4,8} (+16 thorough).")
+    text="One inductive step of the real LRU / PLRU objects from an arbitrary policy state: LRU order list = any permutation sorted by ghost last-access timestamps (uninterpreted), access() keeps it sorted with the accessed block newest, victim has the minimal timestamp, get_repr() is the age rank; PLRU with arbitrary bits: victim follows the tree, access points every bit on the path away, off-path bits unchanged; access is idempotent. Fill clause: from an arbitrary CacheSet state inside the real memory system (valid bits, tags, policy state symbolic) a miss displaces exactly the way the policy names, every other way keeps its block and the policy is told about that way. CrossHair 0.0.110 re-checks 12 PEP316 postconditions on the real classes (associativity <= 4) as an independent engine.",
+    note="Bounds: LRU n<=6 (access) / <=4 (repr) quick, 8/6 thorough; PLRU n in {1,2,4,8}; fill clause on single-set caches with 2 and 4 ways.")
 CHECKS["C11"] = dict(category=MC, design_ref="5/C11",
     text="One read_instruction() of the real InstructionMemoryCacheSystem from an arbitrary invariant state (valid bits, tags, replacement state, counters, penalty symbolic): returns the instruction at the address, counters/penalty/placement/victim/policy update equal the reference, invariant preserved; reset() from an arbitrary state equals a fresh system; bounded symbolic programs in both modes with an instruction cache: results unchanged, accesses = fetches (one per executed instruction in single-cycle mode), hits = trace-driven reference cache, every step advances cycles by 1 + penalty x misses; load A, run, load B leaves the instruction cache as after a fresh load of B; each cache is built with its own configured geometry/policy/penalty.",
     note="Bounds: 5-instruction program for the step harness, geometries <= (1,1,2); programs L<=2 sample + 4 loop skeletons; reload/config clauses on enumerated concrete configurations.")
